@@ -208,3 +208,36 @@ func init() {
 	}
 	extraRangeGens["golang"] = append(extraRangeGens["golang"], genGolangRangeX)
 }
+
+// golangPseudoFamily: for a pseudo-version text, the other pseudo-version forms on the same
+// vX.Y.Z with earlier and later commit times, and an ordinary pre-release that SemVer places
+// between them: order by SemVer precedence and order by commit time disagree on such a family.
+func golangPseudoFamily(r *RNG, s string) []string {
+	i := strings.IndexByte(s, '-')
+	if i < 0 || len(s) < i+28 {
+		return nil
+	}
+	tail := s[len(s)-27:] // TS(14) '-' REV(12)
+	if tail[14] != '-' {
+		return nil
+	}
+	for k := 0; k < 14; k++ {
+		if tail[k] < '0' || tail[k] > '9' {
+			return nil
+		}
+	}
+	base := s[:i]
+	rev := tail[15:]
+	early := "20170102030405"
+	late := "20230908070605"
+	out := []string{
+		base + "-0." + late + "-" + rev,
+		base + "-rc1.0." + early + "-" + rev,
+		base + "-alpha",
+		base + "-rc1",
+		base + "-0." + early + "-" + rev,
+		base + "-rc1.0." + late + "-" + rev,
+		base + "-beta.0." + tail[:14] + "-" + rev,
+	}
+	return out
+}
